@@ -372,6 +372,11 @@ def gen_history(r, cid, nops=None, comp=None, kind=None, rotations=True, direct=
                 op = {'op': 'counters'}
             else:
                 op = {'op': 'addbp', 'bp': gen_bp(r)}
+                hw = r.random()
+                if hw < 0.2:
+                    op['how'] = 'clone_active'
+                elif hw < 0.35 and op['bp']['max'] < 2 ** 63:
+                    op['how'] = 'twice'
         elif k == 'dblock':
             bi = r.randrange(0, usable)
             op = {'op': 'dblock', 'bp': bi, 'items': gen_direct_items(r, P, m.bps[bi], base_ts, empties)}
